@@ -286,7 +286,9 @@ func (w *world) runPair(ps pairSpec, rc any) *pairResult {
 		}
 		ccO, ccI := ps.Out.checker(), ps.In.checker()
 		ctxO, cancelO := context.WithTimeout(context.Background(), fakeDeadline)
-		ctxI, cancelI := context.WithTimeout(context.Background(), fakeDeadline)
+		// (one millisecond apart: two timers firing at the same fake instant would leave the order of the two sides'
+		// reactions to the Go scheduler)
+		ctxI, cancelI := context.WithTimeout(context.Background(), fakeDeadline+time.Millisecond)
 		defer cancelO()
 		defer cancelI()
 		hookWaiting := 0
